@@ -336,6 +336,13 @@ func VerifC07Wire() {
 		bf = vChoose("blk-focus", vParam("blkfocus")) // fact-term or rule-body
 	}
 	bc := wGenContent("blk", bf)
+	// another builder taken from the same token may be outstanding (a draft never built, or built later):
+	// what it was given must not leak into this block's encoding
+	if vChoose("outstanding-draft", 2) == 1 {
+		draft := tok.CreateBlock()
+		draft.AddFact(Fact{Predicate{Name: wName("draft.name"), IDs: []Term{String(wTermName("draft.str"))}}})
+		vLabel("another builder outstanding")
+	}
 	bb := tok.CreateBlock()
 	for _, f := range bc.facts {
 		bb.AddFact(f)
